@@ -85,6 +85,11 @@ func (s *vfSession) forgeStep(x *vfSide) { //nolint:cyclop,maintidx
 	}
 	rng := s.rng
 	peer := s.other(x)
+	if err := vfAwaitNotifiers(x.a); err != nil { // callbacks of earlier steps must not land between the two snapshots
+		s.broken = err.Error()
+
+		return
+	}
 	beforeExact, sn := x.fullSnap("exact")
 	if sn.Err != nil || len(sn.Locals) == 0 {
 		return
